@@ -209,9 +209,13 @@ def kerning_sides(ctx, repo):
     m = repo.mod("ufoLib/converters.py")
     f = m.func("convertUFO1OrUFO2KerningToUFO3Kerning")
     n = 0
+    from ..consteval import try_fold as _tf2
+
     for node in ast.walk(f.node):
-        if isinstance(node, ast.Constant) and isinstance(node.value, str) and node.value.startswith("public.kern") and node.value[11:12] in "12":
-            side = node.value[11]
+        # the prefix as a literal or as a named module constant
+        val = node.value if isinstance(node, ast.Constant) else (_tf2(node) if isinstance(node, ast.Name) and isinstance(node.ctx, ast.Load) and node.id.isupper() or isinstance(node, ast.Name) and node.id.startswith("_") else None)
+        if isinstance(val, str) and val.startswith("public.kern") and val[11:12] in ("1", "2"):
+            side = val[11]
             st = node
             while not isinstance(st, ast.stmt):
                 st = parent(st)
@@ -231,8 +235,8 @@ def kerning_sides(ctx, repo):
                 continue
             n += 1
             ok = (side == "1") == first
-            ctx.ob("KERN-side", f.where, f"{node.value!r} used in a statement about the {'first' if first else 'second'} side: {norm(st)[:60]}", ok, "" if ok else "copy/paste slip: the other side's prefix is tested / produced")
-    if n < 4:
+            ctx.ob("KERN-side", f.where, f"{val!r} used in a statement about the {'first' if first else 'second'} side: {norm(st)[:60]}", ok, "" if ok else "copy/paste slip: the other side's prefix is tested / produced")
+    if n < 2:
         raise AnalysisError(f"KERN-side: only {n} side-specific prefix uses found")
 
 
@@ -414,7 +418,7 @@ def tagid_discriminator(ctx, repo):
 
 
 def uniq_pool(ctx, repo):
-    ctx.rule("UNIQ-pool", "a name made unique with makeUniqueGroupName(name, pool) and then recorded as the VALUE of a rename map is checked against a pool that contains that map's values (the names handed out so far), not only its keys (the old names)", floor=2)
+    ctx.rule("UNIQ-pool", "a name made unique with makeUniqueGroupName(name, pool) and then recorded as the VALUE of a rename map is checked against a pool that contains that map's values (the names handed out so far), not only its keys (the old names)", floor=1)
     m = repo.mod("ufoLib/converters.py")
     n = 0
     for q, f in sorted(m.funcs.items()):
@@ -438,8 +442,8 @@ def uniq_pool(ctx, repo):
                 n += 1
                 ok = f"{D}.values()" in ptxt
                 ctx.ob("UNIQ-pool", f.where, f"{res} is stored as a value of {D}; pool = {ptxt[:80]}", ok, "" if ok else f"the pool lists {D}'s keys (old names): two old names that map to the same new name are not told apart and one group overwrites the other")
-    if n < 2:
-        raise AnalysisError(f"UNIQ-pool: {n} make-unique sites found (2 confirmed: first and second side)")
+    if n < 1:
+        raise AnalysisError(f"UNIQ-pool: {n} make-unique sites found (the first/second side loops, or the one helper both sides call)")
 
 
 def lazy_negative_index(ctx, repo):
